@@ -175,9 +175,9 @@ def run_same(case):
     spec, out = os.path.join(base, "spec.json"), os.path.join(base, "out.json")
     json.dump(dict(dir=d, n=case["images"][0][2], rpcs=case["rpcs"], mode=case["mode"], rounds=case.get("rounds", 6), slow=case.get("slow")), open(spec, "w"))
     env = checklib.worker_env(os.path.join(base, "xdg"))
-    p = subprocess.run([sys.executable, "-W", "ignore", "-c", pre.replace("\\n", "\n") + SAME_CHILD, spec, out], env=env, stdout=subprocess.PIPE, stderr=subprocess.STDOUT, text=True)
+    txt, _ = checklib.run_child([sys.executable, "-W", "ignore", "-c", pre + SAME_CHILD, spec, out], env)
     if not os.path.exists(out):
-        res["bad"].append(("interpreter", "*", f"died: {p.stdout[-500:]}"))
+        res["bad"].append(("interpreter", "*", f"died: {txt[-500:]}"))
         return res
     o = json.load(open(out))
     res["bad"], res["n"] = [tuple(x) for x in o["bad"]], o["n"]
